@@ -354,13 +354,21 @@ func (r *reconstructor) reconstructPacket(rv []reflect.Value) error {
 func (r *reconstructor) reconstructValue(rv reflect.Value) error {
 	k := rv.Kind()
 	original := rv
+	// The interface value that holds rv, if any.
+	var holder reflect.Value
 	if k == reflect.Interface || k == reflect.Ptr {
+		if k == reflect.Interface {
+			holder = rv
+		}
 		rv = rv.Elem()
 		k = rv.Kind()
 	}
 
 	// Check twice. rv can be a pointer to an interface.
 	if k == reflect.Interface || k == reflect.Ptr {
+		if k == reflect.Interface {
+			holder = rv
+		}
 		rv = rv.Elem()
 		k = rv.Kind()
 	}
@@ -394,6 +402,18 @@ func (r *reconstructor) reconstructValue(rv reflect.Value) error {
 		}
 
 	case reflect.Map:
+		// A placeholder decoded into an interface value (`any`, an element of `[]any`): put the attachment in its place.
+		if holder.IsValid() && holder.CanSet() {
+			buf, ok, err := r.placeholderBuffer(rv)
+			if err != nil {
+				return err
+			}
+			if ok {
+				holder.Set(reflect.ValueOf(buf))
+				return nil
+			}
+		}
+
 		err := r.reconstructMap(rv)
 		if err != nil {
 			return err
@@ -401,6 +421,28 @@ func (r *reconstructor) reconstructValue(rv reflect.Value) error {
 	}
 
 	return nil
+}
+
+// If mv is a decoded placeholder object, i.e. {"_placeholder": true, "num": n}, return the attachment it stands for.
+func (r *reconstructor) placeholderBuffer(mv reflect.Value) (buf []byte, ok bool, err error) {
+	if mv.Type().Key().Kind() != reflect.String || mv.Type().Elem().Kind() != reflect.Interface || mv.Len() != 2 {
+		return nil, false, nil
+	}
+	pholder := mv.MapIndex(reflect.ValueOf("_placeholder").Convert(mv.Type().Key()))
+	num := mv.MapIndex(reflect.ValueOf("num").Convert(mv.Type().Key()))
+	if !pholder.IsValid() || !num.IsValid() {
+		return nil, false, nil
+	}
+	pholder = pholder.Elem()
+	num = num.Elem()
+	if pholder.Kind() != reflect.Bool || !pholder.Bool() || num.Kind() != reflect.Float64 {
+		return nil, false, nil
+	}
+	n := num.Float() + 1
+	if n < 1 || n >= float64(len(r.buffers)) {
+		return nil, false, errInvalidPlaceholderNumValue
+	}
+	return r.buffers[int(n)], true, nil
 }
 
 func (r *reconstructor) reconstructBinaryValue(
@@ -581,6 +623,12 @@ func (r *reconstructor) reconstructMap(rv reflect.Value) error {
 					return err
 				}
 				continue
+			}
+
+			// Any other slice (e.g. a []any inside a map[string]any) can contain binaries.
+			err := r.reconstructValue(mv)
+			if err != nil {
+				return err
 			}
 
 		default:
